@@ -28,11 +28,13 @@ func init() {
 		ID:    "C13",
 		Level: "exploration",
 		Rule: "half of the cases: one generated lisp value (nil/bool/int/float/string leaves from boundary sets and random bits; sorted-maps with symbol/string/keyword keys, vectors, lists; " +
+			"key names also from token look-alike families (true/false/null, nil/NaN/Infinity..., number spellings, operators and HTML characters the reader accepts in symbols, unicode letters, package-qualified, JSON punctuation, empty), " +
+			"each spelled as symbol (quoted, bare true/false, or a constructor-made symbol the reader cannot spell), string or keyword, and optionally written twice under both spellings of the name (Set twice / assoc / assoc!); " +
 			"shapes leaf, leaf-vector, ordering-map, nested, wide<=2000, deep<=120, invalid-utf8-mix; built either through sorted-map/vector/list source or the Go constructors) " +
 			"dumped by dump-string/dump-bytes/dump-message with and without :string-numbers, the dump parsed by the independent decoder and loaded back in all four flag combinations. " +
 			"other half: 4 documents each from an RFC 8259 text generator (whitespace in every gap, all number spellings, all escapes, duplicate names), " +
 			"a near-miss mutation catalogue, non-UTF-8 strings, deep/wide documents and JSON-ish random bytes, loaded by load-string/load-bytes in all four flag combinations " +
-			"(keywords, explicit false keywords, use-string-numbers/use-exact-integers defaults, overridden defaults). " +
+			"(keywords, explicit false keywords, use-string-numbers/use-exact-integers defaults, overridden defaults); loaded values are re-dumped, also after the keys of one of their objects were re-written as symbols of the same names via assoc. " +
 			"A case class is distinct by (shape, build route, key kinds, mode, leaf classes) for values and by (origin, mutation name or number/string classes, verdict, nesting bucket) for documents; " +
 			"empty or scalar-free cases are not counted.",
 		Assumptions: []string{
@@ -44,6 +46,7 @@ func init() {
 			"strings that are not valid UTF-8 have no JSON representation: only a valid document whose decoded string is the U+FFFD replacement is demanded; equal? is not asserted for them",
 			"list and vector are the same JSON array: load(dump v) is compared with v after turning lists into vectors",
 			"sorted object names: bytewise (code point) order or UTF-16 code unit order are both accepted",
+			"a sorted-map key is its name: 'k and \"k\" are the same key (docs/lang.md, Sorted Maps: the spelling is presentation only), so the member name of a symbol key is the symbol's name whatever token it resembles; which spelling a map shows after a name was written under both is not judged",
 		},
 		Cases: func(tier string) int {
 			if n, err := strconv.Atoi(os.Getenv("C13_CASES")); err == nil && n > 0 {
